@@ -146,6 +146,8 @@ var Mutants = map[string][]Mutant{
 		{"recycled node keeps its left child", "path_intersection.go", `\tn\.left = nil\n`, ``, "E7.pool-reinit"},
 		{"Flatten writes a package variable", "path.go", `func \(p \*Path\) Flatten\(tolerance float64\) \*Path \{\n`, "func (p *Path) Flatten(tolerance float64) *Path {\n\tTolerance = tolerance\n", "E7.global"},
 		{"Face tie-break removed", "font.go", `if diff < minDiff \|\| diff == minDiff && style < minStyle \{`, `if diff < minDiff {`, "E7.map-order"},
+		{"PDF writer drops the glyph names of the shared font again", "renderers/pdf/writer.go", `\t\t\tcff\.SetGlyphNames\(nil\)\n`, "\t\t\tcff.SetGlyphNames(nil)\n\t\t\tfont.SFNT.CFF.SetGlyphNames(nil)\n", "E1.font-lib"},
+		{"FontFace.Metrics caches into the shared font", "font.go", `func \(face \*FontFace\) Metrics\(\) FontMetrics \{\n`, "func (face *FontFace) Metrics() FontMetrics {\n\tface.Font.SFNT.Length++\n", "E1.shared-font"},
 		{"system font cache read without the lock", "font.go", `\tsystemFonts\.Lock\(\)\n\tif systemFonts\.SystemFonts == nil \{`, "\tif systemFonts.SystemFonts == nil {", "E7.global"},
 	},
 }
